@@ -15,6 +15,8 @@
 //    ConstantCoordinate, couplers, position Motions, dynamic locks, mobility springs) use the
 //    Euler-mode numbering documented for the Assembler and q-indexed *model* elements are put
 //    only on mobilizers without quaternions (their numbering is mode independent);
+//  * the spin angle of LineOrientation/FreeLine mobilizers (third Euler angle: no mobility can change
+//    it, the conditions' analytic gradients do not see it) is never perturbed away from q*;
 //  * at least one free q, at least one active marker/sensor per condition (else the goal is
 //    0/0 by definition), marker/sensor weights finite >= 0;
 //  * "goal no worse than at the start" is judged only if the start (after the documented
@@ -52,17 +54,16 @@ struct CoutSilencer {
 // tolerance): count every C++ throw and remember the last SimTK message.
 static bool g_verbose = false;
 static int g_forceNumGrad = -1, g_forceNumJac = -1;    // debugging overrides (--numgrad 0|1, --numjac 0|1)
-static long g_throws = 0;
+static long g_throws = 0;          // SimTK::Exception::OptimizerFailed only (IPOPT uses C++ exceptions internally for control flow)
 static char g_lastThrow[240] = "";
 extern "C" void __cxa_throw(void* obj, std::type_info* ti, void (*dtor)(void*)) {
     typedef void (*Fn)(void*, std::type_info*, void (*)(void*));
     static Fn real = (Fn)dlsym(RTLD_NEXT, "__cxa_throw");
-    ++g_throws;
-    g_lastThrow[0] = 0;
-    if (ti && (*ti == typeid(SimTK::Exception::OptimizerFailed) || *ti == typeid(SimTK::Exception::Base))) {
+    if (ti && *ti == typeid(SimTK::Exception::OptimizerFailed)) {
+        ++g_throws;
         const SimTK::Exception::Base* b = static_cast<const SimTK::Exception::Base*>(obj);
         strncpy(g_lastThrow, b->getMessageText().c_str(), sizeof g_lastThrow - 1); g_lastThrow[sizeof g_lastThrow - 1] = 0;
-    } else if (ti) { strncpy(g_lastThrow, ti->name(), sizeof g_lastThrow - 1); g_lastThrow[sizeof g_lastThrow - 1] = 0; }
+    }
     real(obj, ti, dtor);
     abort();
 }
@@ -108,7 +109,7 @@ struct Sys {
     std::string conTypes() const { std::set<std::string> s; for (auto& k : cons) s.insert(k.type); std::string r; for (auto& t : s) { if (!r.empty()) r += "+"; r += t; } return r.empty() ? "none" : r; }
 };
 
-struct SysOpts { int minBodies = 1, maxBodies = 5, maxCons = 2; double pCons = 0.6; bool motions = false; bool flags = false; bool heavyCons = true; };
+struct SysOpts { int minBodies = 1, maxBodies = 5, maxCons = 2; double pCons = 0.6; bool motions = false; bool flags = false; bool heavyCons = true; bool forceMotion = false; };
 
 class LinFun2 : public Function {   // c0*x0 + c1*x1 + c2
 public:
@@ -200,7 +201,9 @@ static bool buildSys(Ctx& c, Rng& r, long idx, Sys& S, const SysOpts& o, const s
     d.euler = true;                               // generation happens in the Assembler's representation
     S.m.build(d);
     S.t0 = r.uni(0.0, 2.0);
-    if (o.motions) for (int k = 0; k < S.nNodes(); ++k) if (isNI(d.nodes[k].type) && r.coin(0.15)) {
+    bool forced = false;
+    if (o.motions) for (int k = 0; k < S.nNodes(); ++k) if (isNI(d.nodes[k].type) && (r.coin(0.15) || (o.forceMotion && !forced))) {
+        forced = true;
         Mot mo{k, r.uni(0.3, 1.2), r.uni(0.5, 3.0), r.sym(3.0)};
         Motion::Sinusoid(S.m.bodies[k], Motion::Position, mo.amp, mo.rate, mo.phase);
         S.mots.push_back(mo);
@@ -223,6 +226,12 @@ static bool buildSys(Ctx& c, Rng& r, long idx, Sys& S, const SysOpts& o, const s
         S.m.sys.realizeModel(s2);
         s2.updQ() = s.getQ(); s2.updU() = s.getU(); s2.setTime(S.t0);
         s = s2;
+    }
+    if (!S.userEuler) {
+        // A quaternion client's configuration reaches the Assembler through convertToEulerAngles(): use the
+        // same (canonical) Euler branch for the reference so that q-indexed requirements mean the same thing.
+        State qs, es; S.m.matter.convertToQuaternions(s, qs); S.m.matter.convertToEulerAngles(qs, es);
+        s.updQ() = es.getQ();
     }
     S.sRef = s;
     // sanity: enabled-at-use constraints hold at q*
@@ -297,6 +306,8 @@ struct Prob {
     double acc = 0, tol = 0; bool rms = false, numGrad = false, numJac = false;
     bool achievable = true; double delta = 0; bool noFree = false;
     // derived
+    std::vector<char> inertQ;       // spin angle of LineOrientation/FreeLine: a coordinate no mobility can change (never perturbed)
+    std::vector<char> usedQ;        // per Euler q index: a coordinate in use (quaternion-capable mobilizers keep an unused 4th slot)
     std::vector<char> fixedQ;       // per Euler q index: locked by the study (mobilizer lock, q lock, dynamic lock)
     std::vector<char> prescQ;       // per Euler q index: prescribed by a Motion
     double accInUse() const { return acc > 0 ? acc : 1e-3; }
@@ -382,9 +393,12 @@ static bool boundsOK(const Sys& S, const Prob& P, const Vector& q, double* worst
     return w <= 0;
 }
 
-static void genProblem(Rng& r, const Sys& S, Prob& P, long idx, bool unlistedTail) {
+static void genProblem(Rng& r, const Sys& S, Prob& P, long idx, bool unlistedTail, int forceWhich) {
     const int nb = S.nNodes(), nqE = S.sRef.getNQ();
-    P.fixedQ.assign(nqE, 0); P.prescQ.assign(nqE, 0);
+    P.fixedQ.assign(nqE, 0); P.prescQ.assign(nqE, 0); P.usedQ.assign(nqE, 0);
+    for (int k = 0; k < nb; ++k) for (int i = 0; i < S.nq(k); ++i) P.usedQ[S.q0(k) + i] = 1;
+    P.inertQ.assign(nqE, 0);
+    for (int k = 0; k < nb; ++k) if (S.type(k) == MT_LineOrientation || S.type(k) == MT_FreeLine) P.inertQ[S.q0(k) + 2] = 1;
     for (auto& mo : S.mots) for (int i = 0; i < S.nq(mo.node); ++i) P.prescQ[S.q0(mo.node) + i] = 1;
     std::vector<int> withQ; for (int k = 0; k < nb; ++k) if (S.nq(k) > 0) withQ.push_back(k);
     P.achievable = r.coin(0.6);
@@ -399,7 +413,7 @@ static void genProblem(Rng& r, const Sys& S, Prob& P, long idx, bool unlistedTai
         for (int k : P.dynLock) for (int i = 0; i < S.nq(k); ++i) P.fixedQ[S.q0(k) + i] = 1;
     };
     mark();
-    auto nFree = [&]() { int n = 0; for (int i = 0; i < nqE; ++i) if (!P.fixedQ[i] && !P.prescQ[i]) ++n; return n; };
+    auto nFree = [&]() { int n = 0; for (int i = 0; i < nqE; ++i) if (P.usedQ[i] && !P.fixedQ[i] && !P.prescQ[i]) ++n; return n; };
     if (nFree() == 0) { P.lockMob.clear(); P.dynLock.clear(); mark(); }
     if (nFree() == 0) { P.lockQ.clear(); mark(); }
     P.noFree = nFree() == 0;       // every coordinate prescribed: the study has nothing to solve for
@@ -412,7 +426,8 @@ static void genProblem(Rng& r, const Sys& S, Prob& P, long idx, bool unlistedTai
     // ---- conditions
     const Vector& qs = S.sRef.getQ();
     double noise = P.achievable ? 0.0 : r.pick(std::vector<double>{0.02, 0.2});
-    int which = r.integer(0, 9);        // 0-4 markers, 5-6 markers+sensors, 7 sensors, 8 qvalue only, 9 none/qvalue
+    int which = r.integer(0, 9);        // 0-4 markers, 5-6 markers+sensors, 7 sensors, 8 qvalue only, 9 no goal at all ("basic assembly")
+    if (forceWhich >= 0) which = forceWhich;
     P.hasM = which <= 6; P.hasO = which >= 5 && which <= 7;
     if (P.hasM) {
         int n = r.integer(1, 10);
@@ -461,7 +476,7 @@ static void genProblem(Rng& r, const Sys& S, Prob& P, long idx, bool unlistedTai
         }
         P.WO = r.coin(0.5) ? 1.0 : r.logUni(0.1, 30.0);
     }
-    if (which >= 8 || r.coin(0.25)) {
+    if (which == 8 || (which < 8 && r.coin(0.25))) {
         int n = r.integer(1, 3);
         for (int j = 0; j < n; ++j) {
             int k = r.pick(withQ); QValD v; v.node = k; v.qi = r.integer(0, S.nq(k) - 1);
@@ -495,26 +510,24 @@ struct AsmRun {
 
 static double prescribedValue(const Mot& mo, double t) { return mo.amp * std::sin(mo.rate * t + mo.phase); }
 
-// Harness-side first-order test at a returned point: central-difference gradient of the recomputed
-// goal w.r.t. the free coordinates, with coordinates sitting on an active bound removed and the
-// remainder projected on the tangent space of the assembly-error equations. Returns |g_proj|_inf.
-static double projectedGradient(const Sys& S, const Prob& P, const State& tw, const Vector& q, double t) {
-    std::vector<int> F; for (int i = 0; i < q.size(); ++i) if (!P.fixedQ[i] && !P.prescQ[i]) F.push_back(i);
+// Harness-side first-order test at a returned point: central-difference gradient of a recomputed
+// objective w.r.t. the free coordinates F, with coordinates sitting on an active bound removed and
+// the remainder projected on the tangent space of the equality equations. Returns |g_proj|_inf.
+struct FnOut { double f; std::vector<double> errs; };
+static double projectedGradientGeneric(const std::function<FnOut(const Vector&)>& fn, const Vector& q, const std::vector<int>& F,
+                                       const std::vector<double>& lo, const std::vector<double>& hi, std::vector<double>* gOut = nullptr) {
     const int n = (int)F.size(); const double h = 1e-6;
-    EvalOut e0 = evaluate(S, P, tw, q, t, nullptr); const int m = (int)e0.errs.size();
+    FnOut e0 = fn(q); const int m = (int)e0.errs.size();
     std::vector<double> g(n, 0.0); std::vector<std::vector<double>> J(m, std::vector<double>(n, 0.0));
     for (int k = 0; k < n; ++k) {
         Vector qp = freshQ(q), qm = freshQ(q); qp[F[k]] += h; qm[F[k]] -= h;
-        EvalOut ep = evaluate(S, P, tw, qp, t, nullptr), em = evaluate(S, P, tw, qm, t, nullptr);
-        g[k] = (ep.goal - em.goal) / (2 * h);
+        FnOut ep = fn(qp), em = fn(qm);
+        g[k] = (ep.f - em.f) / (2 * h);
         for (int r = 0; r < m; ++r) J[r][k] = (ep.errs[r] - em.errs[r]) / (2 * h);
     }
-    for (auto& b : P.bounds) {
-        int ix = S.q0(b.node) + b.qi;
-        for (int k = 0; k < n; ++k) if (F[k] == ix) {
-            bool atLo = q[ix] - b.lo <= 1e-5 && g[k] > 0, atHi = b.hi - q[ix] <= 1e-5 && g[k] < 0;
-            if (atLo || atHi) { g[k] = 0; for (int r = 0; r < m; ++r) J[r][k] = 0; }
-        }
+    for (int k = 0; k < n; ++k) {
+        bool atLo = q[F[k]] - lo[k] <= 1e-5 && g[k] > 0, atHi = hi[k] - q[F[k]] <= 1e-5 && g[k] < 0;
+        if (atLo || atHi) { g[k] = 0; for (int r = 0; r < m; ++r) J[r][k] = 0; }
     }
     // modified Gram-Schmidt on the rows of J, then remove their span from g
     std::vector<std::vector<double>> Qr;
@@ -528,8 +541,15 @@ static double projectedGradient(const Sys& S, const Prob& P, const State& tw, co
     }
     for (auto& u : Qr) { double d = 0; for (int k = 0; k < n; ++k) d += u[k] * g[k]; for (int k = 0; k < n; ++k) g[k] -= d * u[k]; }
     double w = 0; for (double x : g) w = std::max(w, std::fabs(x));
+    if (gOut) *gOut = g;
     if (g_verbose) { fprintf(stderr, "  projGrad: n=%d m=%d rank=%d |g_proj|=%.3e g=", n, m, (int)Qr.size(), w); for (double x : g) fprintf(stderr, " %.2e", x); fprintf(stderr, "\n"); }
     return w;
+}
+static double projectedGradient(const Sys& S, const Prob& P, const State& tw, const Vector& q, double t) {
+    std::vector<int> F; for (int i = 0; i < q.size(); ++i) if (P.usedQ[i] && !P.inertQ[i] && !P.fixedQ[i] && !P.prescQ[i]) F.push_back(i);
+    std::vector<double> lo(F.size(), -Infinity), hi(F.size(), Infinity);
+    for (auto& b : P.bounds) { int ix = S.q0(b.node) + b.qi; for (size_t k = 0; k < F.size(); ++k) if (F[k] == ix) { lo[k] = b.lo; hi[k] = b.hi; } }
+    return projectedGradientGeneric([&](const Vector& x) { EvalOut e = evaluate(S, P, tw, x, t, nullptr); return FnOut{e.goal, e.errs}; }, q, F, lo, hi);
 }
 
 // Judge one returned assemble()/track() call.
@@ -614,7 +634,13 @@ static void judgeAssembler(Ctx& c, AsmRun& R, Assembler& A, const std::string& a
         if (!P.lockMob.empty()) c.check("asm-lock:client-mobilizer-moved:" + std::string(S.userEuler ? "euler" : "quat"), mv, 1e-12, [&] { return W(&e); });
     }
     // ---- 5. bounds
-    if (!P.bounds.empty()) { double w = 0; boundsOK(S, P, qI, &w); c.check("asm-bounds:" + apiK + (e.nErr > 0 ? ":ipopt" : ":lbfgsb"), std::max(w, 0.0), 0.0, [&] { return W(&e).set("excess", w); }); }
+    if (!P.bounds.empty()) {
+        double w = 0; boundsOK(S, P, qI, &w);
+        c.check("asm-bounds:" + apiK + (e.nErr > 0 ? ":ipopt" : ":lbfgsb"), std::max(w, 0.0), 0.0, [&] {
+            Json bj = Json::arr();
+            for (auto& b : P.bounds) { int ix = S.q0(b.node) + b.qi; bj.push(Json::obj().set("qIndex", ix).set("lo", b.lo).set("hi", b.hi).set("q", qI[ix]).set("qBefore", qBeforeI[ix]).set("fixed", (int)P.fixedQ[ix]).set("presc", (int)P.prescQ[ix])); }
+            return W(&e).set("excess", w).set("bounds", bj).set("swallowedThrows", throwsDuringCall).set("lastThrow", std::string(g_lastThrow)); });
+    }
     // ---- 6. reported goal == goal of the returned configuration
     {
         double tg = 1e-9 * e.goal + 1e-12 * std::sqrt(e.goal * e.wsum) + 1e-24 * (1 + e.wsum);
@@ -653,13 +679,17 @@ static void judgeAssembler(Ctx& c, AsmRun& R, Assembler& A, const std::string& a
             double pg = projectedGradient(S, P, R.twin, qI, tI);
             c.viol("asm-achievable:optimizer-failure-swallowed:" + apiK, W(&e).set("swallowed", std::string(g_lastThrow)).set("tol2", tol * tol).set("optimizer", opt).set("projectedGradient", pg).set("numGrad", P.numGrad));
         } else {
-            int nfree = 0; double xn = 0; for (int i = 0; i < qI.size(); ++i) if (!P.fixedQ[i] && !P.prescQ[i]) { ++nfree; xn += qI[i] * qI[i]; } xn = std::max(1.0, std::sqrt(xn));
+            int nfree = 0; double xn = 0; for (int i = 0; i < qI.size(); ++i) if (P.usedQ[i] && !P.fixedQ[i] && !P.prescQ[i]) { ++nfree; xn += qI[i] * qI[i]; } xn = std::max(1.0, std::sqrt(xn));
             double pg = projectedGradient(S, P, R.twin, qI, tI);
             if (pg <= 1e3 * acc * xn + 1e-7) c.obs("asm:achievable-not-reached:other-stationary-point");   // global optimality is not claimed
             else if (e.nErr >= nfree)
                 // as many (possibly redundant) error equations as free coordinates: the interior-point optimizer
                 // treats the problem as a square system and never looks at the goal
                 c.viol("asm-achievable:goal-ignored-square-system:" + apiK, W(&e).set("projectedGradient", pg).set("tol2", tol * tol).set("equations", e.nErr).set("freeQ", nfree));
+            else if (opt == "lbfgsb")
+                // bounds-only problems: L-BFGS-B's own relative-decrease stop (factr*epsmch on max(|f|,1)) legitimately
+                // precedes the gradient test for goals << 1, so the a-priori model does not apply; counted only
+                c.obs("asm:achievable-not-reached:lbfgsb-small-decrease-stop");
             else c.viol("asm-achievable:nonstationary-return:" + apiK + ":" + opt, W(&e).set("projectedGradient", pg).set("tol2", tol * tol).set("equations", e.nErr).set("freeQ", nfree));
         }
         (void)qTargetE;
@@ -673,15 +703,18 @@ static std::string asmCoverKey(const AsmRun& R, const std::string& api, const st
 static void caseAssembler(Ctx& c, long idx, Rng& r, bool unlistedTail) {
     AsmRun R; Sys& S = R.S; Prob& P = R.P;
     c.setPhase("asm build");
-    SysOpts o; o.maxBodies = 5; o.maxCons = 2; o.pCons = 0.55; o.motions = true; o.flags = true;
+    // forced cell (every 12th case): a Motion exists and the client's state is off the prescription
+    const bool prescCell = (idx % 12) == 4;
+    SysOpts o; o.maxBodies = 5; o.maxCons = 2; o.pCons = prescCell ? 0.25 : 0.55; o.motions = true; o.flags = true; o.forceMotion = prescCell;
     if (!buildSys(c, r, idx, S, o, nullptr)) return;
-    genProblem(r, S, P, idx, unlistedTail);
+    genProblem(r, S, P, idx, unlistedTail, (prescCell && r.coin(0.5)) ? 9 : -1);
     if (P.noFree) { c.skip("asm:no-free-coordinates"); return; }
     const int nqE = S.sRef.getNQ(); const Vector& qRef = S.sRef.getQ();
     // ---- start configuration (Euler)
-    bool offPrescription = !S.mots.empty() && r.coin(0.3);
+    bool offPrescription = !S.mots.empty() && (r.coin(0.3) || prescCell);
     R.qStartE = freshQ(qRef);
     for (int i = 0; i < nqE; ++i) {
+        if (!P.usedQ[i] || P.inertQ[i]) continue;
         if (P.prescQ[i]) { if (offPrescription) R.qStartE[i] += r.sym(0.5); continue; }
         if (P.fixedQ[i] && P.achievable) continue;
         R.qStartE[i] += r.sym(P.delta);
@@ -709,6 +742,10 @@ static void caseAssembler(Ctx& c, long idx, Rng& r, bool unlistedTail) {
     R.user0 = makeUserState(S, R.qStartE, P.dynLock);
     R.twin = makeTwin(S, R.user0, P.dynLock);
     R.q0E = freshQ(R.twin.getQ());
+    if (!S.userEuler) {
+        double d = 0; for (int i = 0; i < nqE; ++i) d = std::max(d, std::fabs(R.q0E[i] - R.qStartE[i]));
+        if (d > 1e-9) { c.skip("asm:euler-branch-changed-by-perturbation"); return; }
+    }
     // target in Euler coordinates (NaN where the target does not pin the coordinate down is not known: use q*)
     Vector qTarget = freshQ(qRef);
 
@@ -791,7 +828,7 @@ static void caseAssembler(Ctx& c, long idx, Rng& r, bool unlistedTail) {
         // new target: q* moved a little along the free coordinates (reachable when there are no constraints)
         Vector qT = freshQ(qTarget);
         for (int i = 0; i < nqE; ++i) {
-            if (P.prescQ[i]) continue;
+            if (P.prescQ[i] || !P.usedQ[i] || P.inertQ[i]) continue;
             if (P.fixedQ[i]) { qT[i] = R.q0E[i]; continue; }
             qT[i] += r.sym(0.03);
         }
@@ -926,6 +963,24 @@ static double forceScale(const Sys& S, const State& st) {
     double s = 0; for (int i = 0; i < F.size(); ++i) s += F[i][0].norm() + F[i][1].norm(); for (int i = 0; i < mf.size(); ++i) s += std::fabs(mf[i]);
     return s;
 }
+// debugging aid (--verbose only): a copy of the library's objective wrapper, run with IPOPT diagnostics
+class DbgLEM : public OptimizerSystem {
+public:
+    DbgLEM(const MultibodySystem& system, const State& stateIn) : OptimizerSystem(stateIn.getNQ()), system(system), state(stateIn) {
+        state.updU() = 0; system.realize(state, Stage::Time); setNumEqualityConstraints(state.getNQErr()); }
+    int objectiveFunc(const Vector& p, bool np, Real& f) const override { if (np) state.updQ() = p; system.realize(state, Stage::Dynamics); f = system.calcPotentialEnergy(state); return 0; }
+    int gradientFunc(const Vector& p, bool np, Vector& g) const override {
+        if (np) state.updQ() = p; system.realize(state, Stage::Dynamics);
+        Vector_<SpatialVec> dEdR = system.getRigidBodyForces(state, Stage::Dynamics); const SimbodyMatterSubsystem& matter = system.getMatterSubsystem();
+        Vector dEdU; matter.multiplyBySystemJacobianTranspose(state, dEdR, dEdU); dEdU -= system.getMobilityForces(state, Stage::Dynamics);
+        matter.multiplyByNInv(state, true, -1 * dEdU, g);
+        double d = 0; for (int i = 0; i < p.size(); ++i) d = std::max(d, std::fabs(p[i] - state.getQ()[i]));
+        fprintf(stderr, "   grad eval new=%d |p - stateQ|=%.3e p= %.12g %.12g %.12g g= %.10g %.10g %.10g\n", (int)np, d, p[0], p.size() > 1 ? p[1] : 0.0, p.size() > 2 ? p[2] : 0.0, g[0], g.size() > 1 ? g[1] : 0.0, g.size() > 2 ? g[2] : 0.0);
+        return 0; }
+    int constraintFunc(const Vector& p, bool, Vector& cons) const override { state.updQ() = p; system.realize(state, Stage::Position); cons = state.getQErr(); return 0; }
+    const MultibodySystem& system; mutable State state;
+};
+
 static void caseLEM(Ctx& c, long idx, Rng& r) {
     Sys S; c.setPhase("lem build");
     SysOpts o; o.minBodies = 1; o.maxBodies = 3; o.maxCons = 1; o.pCons = 0.3; o.heavyCons = false; o.flags = true;
@@ -949,6 +1004,16 @@ static void caseLEM(Ctx& c, long idx, Rng& r) {
     std::string mode = S.userEuler ? "euler" : "quat";
     auto key = [&](const std::string& outcome) { return "lem/" + fkinds + "/" + (S.hasCons() ? "cons:" + S.conTypes() : "tree") + "/" + mode + "/" + outcome; };
     for (int k = 0; k < S.nNodes(); ++k) c.cover("lem-mob:" + std::string(mobName(S.type(k))) + "/" + (mobHasQuat(S.type(k)) ? mode : "-"));
+    if (g_verbose) {
+        State tw0 = makeTwin(S, user0, {});
+        DbgLEM d(S.m.sys, tw0); Optimizer opt(d); opt.useNumericalJacobian(true); opt.setConvergenceTolerance(tolerance); opt.setDiagnosticsLevel(5);
+        Vector q = freshQ(tw0.getQ());
+        try { opt.optimize(q); fprintf(stderr, "  dbg LEM ok\n"); } catch (const std::exception& e) { fprintf(stderr, "  dbg LEM failed %s\n", e.what()); }
+        fprintf(stderr, "  dbg final q:"); for (int i = 0; i < q.size(); ++i) fprintf(stderr, " %.12g", q[i]); fprintf(stderr, "\n");
+        Vector g(q.size()); d.gradientFunc(q, true, g); Vector c0(d.getNumEqualityConstraints()); d.constraintFunc(q, true, c0);
+        fprintf(stderr, "  dbg grad:"); for (int i = 0; i < g.size(); ++i) fprintf(stderr, " %.10g", g[i]); fprintf(stderr, "\n");
+        for (int i = 0; i < q.size(); ++i) { Vector qp = freshQ(q); qp[i] += 1e-7; Vector c1(c0.size()); d.constraintFunc(qp, true, c1); fprintf(stderr, "  dbg dc/dq%d:", i); for (int k = 0; k < c0.size(); ++k) fprintf(stderr, " %.10g", (c1[k] - c0[k]) / 1e-7); fprintf(stderr, "\n"); }
+    }
     bool ok = false;
     c.setPhase("lem minimizeEnergy");
     {
@@ -981,6 +1046,29 @@ static void caseLEM(Ctx& c, long idx, Rng& r) {
     bool uSame = user.getNU() == user0.getNU(); for (int i = 0; uSame && i < user.getNU(); ++i) uSame = bitEq(user.getU()[i], user0.getU()[i]);
     c.require("lem-state:u-changed:" + mode, uSame && user.getTime() == user0.getTime(), W);
     c.check("lem-state:quaternion-norm", quatDefect(S, user), 1e-13, W);
+    // documented: "the search ends when no component of the energy gradient is larger than [tolerance]" and the
+    // returned state is a local minimum: first-order test in the Euler coordinates the minimizer works in
+    {
+        State tw = makeTwin(S, user, {});
+        std::vector<int> F; for (int i = 0; i < tw.getNQ(); ++i) F.push_back(i);
+        std::vector<double> lo(F.size(), -Infinity), hi(F.size(), Infinity);
+        Vector qE = freshQ(tw.getQ()); double xn = 0;
+        if (g_verbose) { fprintf(stderr, "  returned q:"); for (int i = 0; i < qE.size(); ++i) fprintf(stderr, " %.12g", qE[i]); fprintf(stderr, "\n"); } for (int i = 0; i < qE.size(); ++i) xn += qE[i] * qE[i]; xn = std::max(1.0, std::sqrt(xn));
+        std::vector<double> gv;
+        double pg = projectedGradientGeneric([&](const Vector& x) {
+            State f = tw; f.updQ() = freshQ(x); S.m.sys.realize(f, Stage::Dynamics);
+            FnOut o; o.f = S.m.sys.calcPotentialEnergy(f); o.errs = holoErrs(S, f); return o; }, qE, F, lo, hi, &gv);
+        const std::string fk = fkinds.find('m') != std::string::npos ? "with-mobility-forces" : "body-forces";
+        if (!S.hasCons()) {
+            // unconstrained -> LBFGS, whose (SimTK) stopping rule is max_i |g_i|*max(1,|x_i|) <= tol*max(0.1,|f|)
+            double rs = 0; for (size_t i = 0; i < gv.size(); ++i) rs = std::max(rs, std::fabs(gv[i]) * std::max(1.0, std::fabs((double)qE[F[i]])));
+            rs /= std::max(0.1, std::fabs(pe1));
+            c.check("lem-stationary:tree:" + fk, rs, 2 * tolerance + 1e-6, [&] { return W().set("scaledGradient", rs).set("gradientInf", pg); });
+        } else
+            // constrained -> IPOPT with tol = dual_inf_tol = tolerance (absolute, unscaled)
+            c.check("lem-stationary:constrained:" + fk, pg, 10 * tolerance + 1e-7 * (1 + fs1), [&] { return W().set("projectedGradient", pg); });
+        (void)xn;
+    }
     if (c.wantSample()) c.sample(W().set("tool", "LocalEnergyMinimizer"));
 }
 
